@@ -113,8 +113,12 @@ impl NetcodeServerTransport {
 
     /// Send packets to connected clients.
     pub fn send_packets(&mut self, server: &mut RenetServer) {
-        'clients: for client_id in server.clients_id() {
-            let packets = server.get_packets_to_send(client_id).unwrap();
+        // Only the clients with a netcode session: local clients (RenetServer::new_local_client) are
+        // pumped by process_local_client, draining their packets here would throw them away.
+        'clients: for client_id in self.netcode_server.clients_id() {
+            let Ok(packets) = server.get_packets_to_send(client_id) else {
+                continue;
+            };
             for packet in packets {
                 match self.netcode_server.generate_payload_packet(client_id, &packet) {
                     Ok((addr, payload)) => {
